@@ -193,6 +193,60 @@ def validate_iterinfo(ctx, c01, n):
     _compare(ctx, reqs, exp, "rrgen_iterinfo")
 
 
+def validate_init(ctx, c01, n):
+    """the translated sections of rrule.__init__ (Gen.init_*) against the attributes of the constructed rule"""
+    cases = c01.gen_cases(ctx, "rrgen-init", n, malformed_rate=0.2)
+    reqs, exp = [], []
+    def ol(v):
+        return "-" if v is None else ilist(sorted(v) if isinstance(v, (set, frozenset)) else list(v))
+    for c in cases:
+        if c.get("fwd") is not None:
+            continue
+        nodef = all(c.get(k) is None for k in ("byweekno", "byyearday", "bymonthday", "byweekday", "byeaster"))
+        try:
+            r = c01.build(c)
+        except Exception as ex:
+            reqs.append("rrgen.init " + c01.wire(c)); exp.append(("err", exc_kind(ex)))
+            continue
+        e = "ok " + " ".join([
+            ol(r._bysetpos), ol(r._bymonth), ol(r._byyearday), ol(r._byeaster),
+            ilist(r._bymonthday) + "/" + ilist(r._bynmonthday), ol(r._byweekno),
+            ol(r._byweekday) + "/" + ("-" if r._bynweekday is None else ilist([x for q in r._bynweekday for x in q])),
+            ol(r._byhour), ol(r._byminute), ol(r._bysecond),
+            "-" if r._timeset is None else ilist([x for t in r._timeset for x in (t.hour, t.minute, t.second)])])
+        reqs.append("rrgen.init " + c01.wire(c)); exp.append(("ok", e))
+    # the whole translated constructor (Gen.init) against the normalised state of the implementation
+    wreqs, wexp = [], []
+    for c in cases:
+        try:
+            r = c01.build(c)
+            wexp.append("ok " + c01.impl_rule_dump(r))
+        except Exception as ex:
+            if not isinstance(ex, ValueError) or "UTC" in str(ex):
+                continue                  # the awareness check is not part of the translation
+            wexp.append("err " + exc_kind(ex))
+        wreqs.append("rrgen.initwhole " + c01.wire(c))
+    _compare(ctx, wreqs, wexp, "rrgen_initwhole")
+    got = ctx.driver(reqs)
+    for q, (kind, e), g in zip(reqs, exp, got):
+        if kind == "ok":
+            if e != g:
+                ctx.mismatch("rrgen.init", q[:400], e[:600], g[:600])
+            else:
+                ctx.traces += 1
+        else:
+            # the constructor raised: a section raises the same kind, or every section is fine and the error comes from a
+            # part that is not translated (INTERVAL < 1, datetime.time(...) in the timeset loop, the UNTIL / DTSTART check)
+            if g.startswith("err "):
+                if g != "err " + e:
+                    ctx.mismatch("rrgen.init", q[:400], "err " + e, g[:600])
+                else:
+                    ctx.traces += 1; ctx.count("rrgen_init_error_outcomes")
+            else:
+                ctx.count("rrgen_init_error_elsewhere")
+    ctx.count("rrgen_init", len(reqs))
+
+
 def validate(ctx, c01):
     if not _kernels_ok(ctx):
         return
@@ -200,3 +254,4 @@ def validate(ctx, c01):
         warnings.simplefilter("ignore")
         validate_helpers(ctx, ctx.budget(1200, 12000))
         validate_iterinfo(ctx, c01, ctx.budget(600, 6000))
+        validate_init(ctx, c01, ctx.budget(1500, 15000))
